@@ -13,10 +13,13 @@
 package main
 
 import (
+	"bufio"
 	"fmt"
 	"os"
 	"strconv"
 	"strings"
+	"sync/atomic"
+	"time"
 
 	"github.com/dop251/goja"
 	"verifharness/common"
@@ -274,6 +277,7 @@ func runCase(line string) string {
 	}
 
 	rt := goja.New()
+	currentRT.Store(rt)
 	var tracker []trackEntry
 	rt.SetPromiseRejectionTracker(func(pr *goja.Promise, op goja.PromiseRejectionOperation) {
 		tracker = append(tracker, trackEntry{pr, op})
@@ -406,9 +410,48 @@ func runCase(line string) string {
 	return strings.Join(out, " # ") + " # st=" + strings.Join(sts, ",")
 }
 
-func main() {
-	if len(os.Args) > 1 && os.Args[1] == "-js" {
-		// debugging aid: not used by the check
+// deadline for one case (a case takes well under a millisecond; the limit only catches a runtime that no longer
+// terminates).  On expiry the runtime is interrupted; if even that does not end the case the harness prints HANG,
+// flushes and exits so that the orchestrator knows exactly which line did it and can go on with the rest.
+func caseDeadline() time.Duration {
+	if v := os.Getenv("C10_DEADLINE_MS"); v != "" {
+		if n, err := strconv.Atoi(v); err == nil && n > 0 {
+			return time.Duration(n) * time.Millisecond
+		}
 	}
-	common.Loop(runCase)
+	return 20 * time.Second
+}
+
+var currentRT atomic.Pointer[goja.Runtime]
+
+func main() {
+	in := bufio.NewScanner(os.Stdin)
+	in.Buffer(make([]byte, 1<<20), 1<<26)
+	out := bufio.NewWriter(os.Stdout)
+	defer out.Flush()
+	limit := caseDeadline()
+	for in.Scan() {
+		line := in.Text()
+		done := make(chan string, 1)
+		go func() { done <- common.Safe(func() string { return runCase(line) }) }()
+		var res string
+		select {
+		case res = <-done:
+		case <-time.After(limit):
+			if rt := currentRT.Load(); rt != nil {
+				rt.Interrupt("deadline")
+			}
+			select {
+			case <-done:
+				res = "HANG interrupted-after-deadline"
+			case <-time.After(limit/4 + time.Second):
+				out.WriteString("HANG\n")
+				out.Flush()
+				os.Exit(3)
+			}
+		}
+		out.WriteString(res)
+		out.WriteByte('\n')
+		out.Flush() // per line: after a crash the number of answers identifies the offending line
+	}
 }
